@@ -32,10 +32,13 @@ def select_entries(prog, spec):
 _T = {}
 
 
-def totality(ctx, config):
-    if config not in _T:
-        _T[config] = total.Totality(ctx.prog(config), ctx.table("total"), cfg_set=ctx.cfgs())
-    return _T[config]
+def totality(ctx, config, kernels=False):
+    """kernels=True: the division / GCD kernels' implicit sites are inventoried too (C11, C12, C14)."""
+    k = (config, kernels)
+    if k not in _T:
+        _T[k] = total.Totality(ctx.prog(config), ctx.table("total"), cfg_set=ctx.cfgs(),
+                               implicit_scope=(lambda b: True) if kernels else None)
+    return _T[k]
 
 
 def short(k):
@@ -112,14 +115,14 @@ def run_overflow(ctx, spec, floor, label="", discharged_floor=10):
     return rep
 
 
-def run(ctx, spec, floor, config="all", label="", own_only=False):
+def run(ctx, spec, floor, config="all", label="", own_only=False, kernels=False):
     rep = Report("R-TOTAL", "every entry point that promises to be total (checked_/overflowing_/saturating_/wrapping_ "
                  "forms, try_from_*, decoders, parsers) reaches no panic site that is not discharged by a dominating "
                  "guard (interval / relational / non-zero / callee-guard refutation) in every evaluated (BITS, LIMBS) "
                  "configuration; explicit sites are inventoried in the whole call-graph closure, implicit sites "
                  "(bounds checks, slice ranges) outside algorithms::")
     prog = ctx.prog(config)
-    T = totality(ctx, config)
+    T = totality(ctx, config, kernels)
     entries = select_entries(prog, spec)
     cfgs = ctx.cfgs()
     n_res = 0
@@ -168,10 +171,10 @@ def run(ctx, spec, floor, config="all", label="", own_only=False):
 
 def stale_rows(ctx, config="all"):
     """Table rows that matched nothing (stale table) -- reported by the meta check."""
-    T = totality(ctx, config)
+    used = set(totality(ctx, config).table_used) | set(totality(ctx, config, True).table_used)
     out = []
     for fn, rows in ctx.table("total").items():
         for r in rows:
-            if (fn, r.get("kind"), r.get("what")) not in T.table_used and not r.get("optional"):
+            if (fn, r.get("kind"), r.get("what")) not in used and not r.get("optional"):
                 out.append((fn, r.get("kind"), r.get("what")))
     return out
